@@ -9,7 +9,7 @@ from common import Cmat, Cx, R, Rmat, cfl, fl, flmat, max_rel_err
 
 from common import wiring_pre_build as pre_build  # noqa: E402,F401
 
-LEAN_MODULES = ["PyomaVerif.Props.C01", "PyomaVerif.Props.WiringRun", "PyomaVerif.Props.C01C11", "PyomaVerif.Props.C01E2E", "PyomaVerif.Props.C01Stored", "PyomaVerif.Props.WiringCalls"]
+LEAN_MODULES = ["PyomaVerif.Props.C01", "PyomaVerif.Props.WiringRun", "PyomaVerif.Props.C01C11", "PyomaVerif.Props.C01E2E", "PyomaVerif.Props.C01Stored", "PyomaVerif.Props.WiringCalls", "PyomaVerif.Props.C01Table", "PyomaVerif.Props.C03Table"]
 THEOREMS = [
     # the exact sequence of core-routine calls of the run()/mpe() body and the exact set of parameters bound at each (regenerated call table)
     "PV.WiringCalls.C12_ssidat_run_calls",
@@ -60,9 +60,27 @@ THEOREMS = [
     "PV.C01Stored.Ex.stored",
     "PV.C09Stored.C09_raw_survives",
     "PV.C09Stored.C09_neutral_identity",
+    # the same, concluded on the cells of the tables the model of ssi.SSI_poles returns (Model/Poles.lean `ssiPoles`,
+    # Lemmas/Poles.lean, Props/C01Table.lean): column content, list position -> column, "SSI_poles returns" are derived
+    "PV.Poles.ssiPoles_spec",
+    "PV.Poles.ssiPoles_ok",
+    "PV.C01Table.C01_table_of_recovered",
+    "PV.C01Table.fastLists_get",
+    "PV.C01Table.ssiEigArgs_fast",
+    "PV.C01Table.C01_e2e_cov_table",
+    "PV.C01Table.C01_e2e_dat_table",
+    "PV.C01Table.Ex.table",
+    "PV.C01Table.ExDat.table",
+    # multi-setup (C03): the same tables on the lists of SSI_multi_setup; the hypothesis ColumnFilled of C03C11_global derived
+    # (listed here because the SSI_poles streams live in this harness)
+    "PV.C03Table.C03_e2e_table",
+    "PV.C03Table.C03_columnFilled",
+    "PV.C03Table.Ex.table",
 ]
 RULE = (
-    "correspondence: ssi.SSI_fast, ssi.SSI, ssi.ac2mp and the SSI_poles table pattern vs the Lean model, the LAPACK results "
+    "correspondence: ssi.SSI_fast (also its list-building loop with step 1..3), ssi.SSI, ssi.ac2mp and ssi.SSI_poles as one model function "
+    "(table VALUES cell by cell incl. Lambds, NaN pattern, shapes, step != 1 incl. the exception class, the matrices handed to "
+    "eig, Fn_cov/Xi_cov cells with calc_unc) vs the Lean model, the LAPACK results "
     "(svd, qr, inv, pinv, eig) recorded by wrapping the numpy/scipy entry points in the harness process and handed to the "
     "model as exact rationals (1e-10 relative); oracle: random exact systems over the property's domain (m 1..6, 2..8 "
     "channels, reference subsets observing all modes, br >= index+1, cov_mm and dat, fast and legacy routine, real/complex "
@@ -163,6 +181,121 @@ def _system_case(ctx, max_m=6, max_ch=8, long=False):
     raise RuntimeError("no admissible system generated")
 
 
+def _eig_records(eigs, dt):
+    """the outputs of the successive scipy.linalg.eig calls of SSI_poles (via ac2mp) and of np.log / np.abs on them, as
+    the model's per-call records; None if a value is not finite (log 0) or a pole is exactly 0 (0/0 in xi)"""
+    from common import Cvec, Rvec
+
+    recs = []
+    for (_a, out) in eigs:
+        lam_d, lv, rv = out
+        with np.errstate(all="ignore"):
+            lamc = (np.log(lam_d)) * (1 / dt)
+        if not (np.all(np.isfinite(lamc)) and np.all(np.abs(lamc) > 0) and np.all(np.abs(lam_d) > 0)):
+            return None
+        recs.append(dict(lamd=Cvec(lam_d), L=Cmat(lv), V=Cmat(rv), lamc=Cvec(lamc), absc=Rvec(np.abs(lamc)), absd=Rvec(np.abs(lam_d))))
+    return recs
+
+
+def _cells_close(M, Rl, rtol):
+    """same shape, same NaN pattern, every non-NaN cell within rtol (relative, per cell)"""
+    M = np.asarray(M)
+    Rl = np.asarray(Rl)
+    if M.shape != Rl.shape or (np.isnan(M) != np.isnan(Rl)).any():
+        return False
+    k = ~np.isnan(Rl)
+    return bool(np.all(np.abs(M[k] - Rl[k]) <= rtol * np.abs(Rl[k]) + 1e-300))
+
+
+def _poles_case(ctx, ssi, stream, Obs, A, C, ordmax, dt, step, key, unc=None):
+    """ssi.SSI_poles against the model function `ssiPoles` on the same lists AA, CC: VALUES of the four (six) tables cell by
+    cell, the NaN pattern, the shapes, the exception class, and the matrices handed to scipy.linalg.eig"""
+    import scipy.linalg
+
+    eigs, invs = [], []
+    kw = {}
+    if unc is not None:
+        kw = dict(calc_unc=True, Q1=unc[0], Q2=unc[1], Q3=unc[2], Q4=unc[3])
+    try:
+        with record(scipy.linalg, "eig", eigs), record(np.linalg, "inv", invs):
+            out = ssi.SSI_poles(Obs, A, C, ordmax, dt, step, **kw)
+        raised = None
+    except (IndexError, ValueError, ZeroDivisionError) as e:
+        raised = type(e).__name__
+    recs = _eig_records(eigs, dt)
+    if recs is None:
+        ctx.skipped += 1
+        ctx.count("poles_skipped_nonfinite_pole")
+        return
+    uj = None
+    if unc is not None:
+        uj = dict(Q1=Rmat(unc[0]), Q2=Rmat(unc[1]), Q3=Rmat(unc[2]), OO=[Rmat(o) for (_a, o) in invs], pi=R(np.pi), dt=R(dt))
+    m = ctx.model("ssi_poles", AA=[Rmat(a) for a in A], CC=[Rmat(c) for c in C], ordmax=ordmax, step=step, recs=recs,
+                  twopi=R(2 * np.pi), unc=uj)
+    inp = {"A": [np.asarray(a).tolist() for a in A], "C": [np.asarray(c).tolist() for c in C], "ordmax": ordmax, "dt": dt, "step": step}
+    if raised is not None or "raises" in m:
+        ctx.count(f"poles_raises_{raised}")
+        ctx.corr(stream, m.get("raises") == raised, inp, m.get("raises"), raised, key + ("raises", raised))
+        return
+    Fn, Xi, Phi, Lam, Fn_cov, Xi_cov, Phi_cov = out
+    cm = lambda T: np.array([[cfl(z) for z in row] for row in T], dtype=complex).reshape(np.asarray(T, dtype=object).shape[:2])  # noqa: E731
+    ok = _cells_close(np.array(flmat(m["fn"])).reshape(Fn.shape), Fn, 1e-12) and _cells_close(np.array(flmat(m["xi"])).reshape(Xi.shape), Xi, 1e-12)
+    # Lambdas: the recorded np.log(lam_d)*(1/dt) goes through unchanged
+    ok = ok and _cells_close(cm(m["lam"]) if Lam.size else np.zeros(Lam.shape), Lam, 1e-15)
+    # the matrices handed to eig are AA[ii] of the visited orders, in that order
+    ea = m["eigargs"]
+    ok = ok and len(ea) == len(eigs) and all(x is not None and np.array_equal(np.array(flmat(x)).reshape(np.asarray(a[0]).shape), a[0]) for x, (a, _o) in zip(ea, eigs))
+    # Phi: shape, NaN pattern, values (a column of C·V that is tiny by cancellation carries a large relative rounding error)
+    PH = np.array([[[cfl(z) for z in cell] for cell in row] for row in m["phi"]], dtype=complex).reshape(Phi.shape)
+    ok = ok and (np.isnan(PH) == np.isnan(Phi)).all()
+    orders = list(range(1, ordmax + 1, step))
+    for k, ii in enumerate(orders):
+        if not ok:
+            break
+        rv = eigs[k][1][2]
+        raw = np.asarray(C[ii]) @ rv
+        for j in range(raw.shape[1]):
+            cancel = (np.abs(C[ii]) @ np.abs(rv[:, j])).max() / max(np.abs(raw[:, j]).max(), 1e-300)
+            ok = ok and max_rel_err(PH[j, ii, :], Phi[j, ii, :]) <= 1e-12 + 4e-16 * cancel * raw.shape[0]
+    if unc is not None:
+        ok = ok and m["fncov"] is not None and m["xicov"] is not None and m["phicov"] is not None
+        if ok:
+            ok = _cells_close(np.array(flmat(m["fncov"])).reshape(Fn_cov.shape), Fn_cov, 1e-9) and _cells_close(np.array(flmat(m["xicov"])).reshape(Xi_cov.shape), Xi_cov, 1e-9)
+            PC = np.array([[[fl(v) for v in cell] for cell in row] for row in m["phicov"]], dtype=float).reshape(Phi_cov.shape)
+            ok = ok and np.isnan(PC).all() and np.isnan(Phi_cov).all() and len(invs) == len(orders)
+    else:
+        ok = ok and m["fncov"] is None and m["xicov"] is None and m["phicov"] is None and Fn_cov is None and Xi_cov is None and Phi_cov is None
+    ctx.corr(stream, bool(ok), inp, None, None, key)
+
+
+def _poles_unc_stream(ctx, ssi):
+    """SSI_poles(calc_unc=True): Fn_cov / Xi_cov tables against the model, every cell (generator of C17's correspondence)"""
+    import c17
+
+    done = tries = 0
+    want = ctx.n(3, 40)
+    while done < want and tries < 10 * want:
+        tries += 1
+        g = ctx.nprng()
+        l = ctx.rng.randint(1, 2)
+        r = ctx.rng.randint(1, l)
+        p = ctx.rng.randint(2, 3)
+        cap = min(4, p * l, (p + 1) * r)
+        if cap < 2:
+            continue
+        ordmax = ctx.rng.randint(2, cap)
+        H = c17.gen_hankel_lowrank(g, l, r, p, ordmax + ctx.rng.randint(0, 1), 10 ** g.uniform(-4, -2))
+        if not c17.sv_guard(H, ordmax):
+            ctx.skipped += 1
+            continue
+        nbc = ctx.rng.randint(1, 3)
+        T = g.standard_normal((H.size, nbc))
+        Obs, A, C, Q1, Q2, Q3, Q4 = ssi.SSI_fast(H, p, ordmax, step=1, calc_unc=True, T=T, nb=nbc)
+        _poles_case(ctx, ssi, "ssi.SSI_poles[cov values]", Obs, A, C, ordmax, c17.DT, 1, ("cov", l, r, p, ordmax, nbc), unc=(Q1, Q2, Q3, Q4))
+        done += 1
+    ctx.count("poles_cov_cases", done)
+
+
 def correspondence(ctx):
     import scipy.linalg
 
@@ -258,8 +391,32 @@ def correspondence(ctx):
         ) and (np.array(pat) == np.array(impl_pat)).mean() > 0.99
         okp = okp and (np.isnan(Fn) == np.isnan(Xi)).all() and (np.isnan(Fn) == np.isnan(Phi[:, :, 0])).all()
         ctx.corr("ssi.SSI_poles[table]", bool(okp), {"ordmax": ordmax}, pat, impl_pat, ("table", ordmax))
+        # ---- SSI_poles as ONE model function: table VALUES, column placement, Lambdas, eig arguments
+        _poles_case(ctx, ssi, "ssi.SSI_poles[values]", Obs, A, C, ordmax, S.dt, 1, ("values", l, ordmax))
+        # ---- the step parameter as coded (lists of SSI_fast(step=s1) fed to SSI_poles(step=s2)): mostly IndexError
+        s1, s2 = rng.choice([(1, 2), (1, 3), (2, 2), (3, 3), (2, 1), (1, 2)])
+        om2 = rng.randint(1, ordmax)
+        svds, qrs, invs = [], [], []
+        with record(np.linalg, "svd", svds), record(np.linalg, "qr", qrs), record(np.linalg, "inv", invs):
+            Obs_s, A_s, C_s, *_ = ssi.SSI_fast(H, br, om2, s1)
+        if len(invs) == len(A_s):
+            U_s, SIG_s, _ = svds[0][1]
+            ml = ctx.model("ssi_fast_lists", U=Rmat(U_s[:, :om2]), sq=[R(v) for v in np.sqrt(SIG_s[:om2])], Q=Rmat(qrs[0][1][0]),
+                           Rinv=[Rmat(np.asarray(o)) if np.asarray(o).size else [] for (_a, o) in invs], l=l, ordmax=om2, step=s1)
+            okl = len(ml["A"]) == len(A_s) and len(ml["C"]) == len(C_s)
+            for kk in range(len(A_s)):
+                if not okl:
+                    break
+                n_ = A_s[kk].shape[0]
+                okl = n_ == kk * s1 and np.array(flmat(ml["A"][kk])).reshape(n_, n_).shape == A_s[kk].shape
+                if n_ > 0:
+                    okl = okl and max_rel_err(np.array(flmat(ml["A"][kk])).reshape(n_, n_), A_s[kk]) <= tolA(np.asarray(invs[kk][1]), n_, A_s[kk])
+                    okl = okl and max_rel_err(np.array(flmat(ml["C"][kk])).reshape(l, n_), C_s[kk]) <= 1e-12
+            ctx.corr("ssi.SSI_fast[lists,step]", bool(okl), {"H": H.tolist(), "br": br, "ordmax": om2, "step": s1}, None, None, ("lists", l, om2, s1))
+        _poles_case(ctx, ssi, "ssi.SSI_poles[step]", Obs_s, A_s, C_s, om2, S.dt, s2, ("step", om2, s1, s2))
         if k == 0:
             ctx.sample({"fn": S.fn.tolist(), "xi": S.xi.tolist(), "channels": l, "ref": ref, "br": br, "method": method, "ordmax": ordmax})
+    _poles_unc_stream(ctx, ssi)
 
 
 def _check_poles(ctx, tag, fn, xi, phi, lam, S, inp, tol=1e-8):
